@@ -828,6 +828,53 @@ class OptResultV:
         raise_('AttributeError', name)
 
 
+class NullCell:
+    """an empty spreadsheet cell (pandas NaN)"""
+
+    def __repr__(self):
+        return 'NaN'
+
+
+NULL = NullCell()
+
+
+class DataFrameV:
+    """assumed contract of pandas.read_excel: rows in sheet order, one
+    (header, cell) pair per column in column order, NaN for an empty cell,
+    duplicate headers mangled as 'h', 'h.1', 'h.2' ..."""
+
+    def __init__(self, headers, rows):
+        seen = {}
+        hs = []
+        for h in headers:
+            if h in seen:
+                seen[h] += 1
+                hs.append('%s.%d' % (h, seen[h]))
+            else:
+                seen[h] = 0
+                hs.append(h)
+        self.headers = hs
+        self.rows = rows
+
+    def sym_getattr(self, name, interp):
+        if name == 'iterrows':
+            return Builtin('iterrows', lambda: [
+                (i, RowV(self.headers, r)) for i, r in enumerate(self.rows)])
+        raise_('AttributeError', name)
+
+
+class RowV:
+    def __init__(self, headers, cells):
+        self.headers = headers
+        self.cells = cells
+
+    def sym_getattr(self, name, interp):
+        if name == 'items' or name == 'iteritems':
+            return Builtin('items', lambda: list(zip(self.headers,
+                                                     self.cells)))
+        raise_('AttributeError', name)
+
+
 class FileV:
     """a text file with known (structured) contents"""
 
@@ -2004,7 +2051,21 @@ def external_modules(interp):
         return groups
     E['more_itertools'] = _mod('more_itertools', {
         'consecutive_groups': B('consecutive_groups', consecutive_groups)})
-    E['os'] = _mod('os', {})
+    def read_excel(it, io=None, **kw):
+        if not isinstance(io, DataFrameV):
+            raise Unsupported('pandas.read_excel of a real file')
+        return io
+    E['pandas'] = _mod('pandas', {
+        'read_excel': B('read_excel', read_excel),
+        'isnull': B('isnull', lambda it, v: isinstance(v, NullCell)),
+        'isna': B('isna', lambda it, v: isinstance(v, NullCell)),
+    })
+    E['os.path'] = _mod('os.path', {
+        'dirname': B('dirname', lambda it, p: '' if not isinstance(p, str)
+                     else __import__('os').path.dirname(p)),
+        'join': B('join', lambda it, *a: __import__('os').path.join(*a)),
+    })
+    E['os'] = _mod('os', {'path': E['os.path']})
     E['re'] = _mod('re', _re_table(interp))
     E['itertools'] = _mod('itertools', {
         'product': B('product', lambda it, *seqs, **k: _product(it, seqs, k)),
